@@ -347,6 +347,9 @@ pub fn exec(case: &Case) -> Outcome {
             out.class("catalog-carries-column-statistics");
         }
         out.class(if d.ts_type % 2 == 0 { "ts:int64" } else { "ts:timestamp" });
+        if d.pre_epoch {
+            out.class("data-before-the-epoch");
+        }
         if batches.windows(2).any(|w| w[0].schema() != w[1].schema()) {
             out.class("chunks-with-different-columns");
         }
@@ -570,7 +573,7 @@ pub fn exec_aged(case: &AgedCase) -> Outcome {
         out.nontrivial = true;
         // 1. a first statement with a now()-relative bound is analysed in this process
         {
-            let d0 = Dataset { ts_type: 1, age: 3, span_h: 0, rows: vec![QRow { minute: 1, jitter: 0, metric: 0, host: None, zone: None, value: 1, chunk: 0 }], custom_label: false, backend: 0, hetero: 0 };
+            let d0 = Dataset { ts_type: 1, age: 3, span_h: 0, rows: vec![QRow { minute: 1, jitter: 0, metric: 0, host: None, zone: None, value: 1, chunk: 0 }], custom_label: false, backend: 0, hetero: 0, pre_epoch: false };
             let now0 = chrono::Utc::now().timestamp_nanos_opt().unwrap();
             let store: Arc<dyn object_store::ObjectStore> = Arc::new(object_store::memory::InMemory::new());
             if let Ok(env0) = ingest(store, 0, &d0.batches(now0), d0.schema()).await {
@@ -585,7 +588,7 @@ pub fn exec_aged(case: &AgedCase) -> Outcome {
         let now = chrono::Utc::now().timestamp_nanos_opt().unwrap();
         let n = 2 + (case.rows % 6) as usize;
         let nchunks = 1 + (case.chunks % 3) as usize;
-        let schema = Dataset { ts_type: 1, age: 0, span_h: 0, rows: vec![], custom_label: false, backend: case.backend, hetero: 0 }.schema();
+        let schema = Dataset { ts_type: 1, age: 0, span_h: 0, rows: vec![], custom_label: false, backend: case.backend, hetero: 0, pre_epoch: false }.schema();
         let mut batches = Vec::new();
         for c in 0..nchunks {
             let idx: Vec<usize> = (0..n).filter(|i| i % nchunks == c).collect();
@@ -688,7 +691,7 @@ fn proj() -> impl Strategy<Value = Proj> {
 }
 
 fn strategy(t: Tier) -> BoxedStrategy<Case> {
-    ((dataset(t.pick(40usize, 60usize)), prop::bool::weighted(0.25)).prop_map(|(mut d, h)| { d.hetero = h as u8; d }), prop::collection::vec((win(), rest(), proj(), prop::option::weighted(0.15, 0u8..40)).prop_map(|(win, rest, proj, abandoned_after)| Query { win, rest, proj, abandoned_after }), 1..t.pick(6usize, 10usize)), any::<bool>(), prop::bool::weighted(0.3), prop::bool::weighted(0.3), prop::bool::weighted(0.4))
+    ((dataset(t.pick(40usize, 60usize)), prop::bool::weighted(0.25), prop::bool::weighted(0.15)).prop_map(|(mut d, h, pre)| { d.hetero = h as u8; d.pre_epoch = pre; d }), prop::collection::vec((win(), rest(), proj(), prop::option::weighted(0.15, 0u8..40)).prop_map(|(win, rest, proj, abandoned_after)| Query { win, rest, proj, abandoned_after }), 1..t.pick(6usize, 10usize)), any::<bool>(), prop::bool::weighted(0.3), prop::bool::weighted(0.3), prop::bool::weighted(0.4))
         .prop_map(|(data, queries, fresh_each, adaptive, compact, with_stats)| Case { data, queries, fresh_each, adaptive, compact, with_stats })
         .boxed()
 }
